@@ -42,9 +42,14 @@ where
     }
 
     fn deserialize_pk(bytes: &[u8]) -> Result<Self::Pk, InternalError> {
+        // `from_sec1_bytes()` also accepts other SEC1 formats of the same length
+        // (e.g. the "compact" format); only the compressed format produced by
+        // `serialize_pk()` is a valid encoding here
         PublicKey::<Self>::from_sec1_bytes(bytes)
             .map(|public_key| public_key.to_projective())
-            .map_err(|_| InternalError::PointError)
+            .ok()
+            .filter(|pk| Self::serialize_pk(*pk).as_slice() == bytes)
+            .ok_or(InternalError::PointError)
     }
 
     fn random_sk<R: RngCore + CryptoRng>(rng: &mut R) -> Self::Sk {
